@@ -299,13 +299,21 @@ theorem C19_rejects_sumtensor (shapes : List (List Nat)) (h : ¬ Pre_sumtensor s
 theorem C19_accepts_sumtensor (shapes : List (List Nat)) (h : Pre_sumtensor shapes) :
     validate_sumtensor shapes = .ok () := (validate_sumtensor_ok_iff shapes).2 h
 
-/-- `tenmat(data, rdims, cdims, tshape)`: another number of values than cells, or a mode split
-that is not a permutation of the modes. -/
+/-- `tenmat(data, rdims, cdims, tshape)`: another number of values than cells, a mode split that is
+not a permutation of the modes, or a matrix whose shape is not (cells of the row modes, cells of the
+column modes) — a 1-d array is shaped by the constructor, only its size has to fit (commit 8a75720). -/
 theorem C19_rejects_tenmat (a : TenmatArgs) (h : ¬ Pre_tenmat a) : validate_tenmat a = .error .reject :=
   rejects_of_guard (validate_tenmat_ok_iff a) h
 
 theorem C19_accepts_tenmat (a : TenmatArgs) (h : Pre_tenmat a) : validate_tenmat a = .ok () :=
   (validate_tenmat_ok_iff a).2 h
+
+/-- in particular: a `2 × 6` matrix for the split 0 | 1 of a `3 × 4` tensor is refused although the
+cell counts agree, the `3 × 4` matrix and a vector of 12 are accepted. -/
+example : ¬ Pre_tenmat { dshape := (2, 6), rdims := some [0], cdims := some [1], tshape := [3, 4] } ∧
+    Pre_tenmat { dshape := (3, 4), rdims := some [0], cdims := some [1], tshape := [3, 4] } ∧
+    Pre_tenmat { dshape := (1, 12), rdims := some [0], cdims := some [1], tshape := [3, 4], vec := true } := by
+  decide
 
 /-- `sptenmat(subs, vals, rdims, cdims, tshape)`: a mode split that is not a permutation, a
 subscript array that is not (row, column) pairs, an index that is negative or `≥` the number
